@@ -272,6 +272,18 @@ func (r *Runner) ApplyEnv(ev M, contents map[string][]byte) (bool, error) {
 		return true, os.RemoveAll(r.wtPath(ev["p"].(string)))
 	case "mkdir":
 		return true, os.MkdirAll(r.wtPath(ev["p"].(string)), 0o777)
+	case "symlink":
+		// ln -s: a relative symbolic link at <p> whose target is the working-tree file <to>
+		p, to := r.wtPath(ev["p"].(string)), r.wtPath(ev["to"].(string))
+		if err := os.MkdirAll(filepath.Dir(p), 0o777); err != nil {
+			return true, err
+		}
+		rel, err := filepath.Rel(filepath.Dir(p), to)
+		if err != nil {
+			return true, err
+		}
+		os.Remove(p)
+		return true, os.Symlink(rel, p)
 	case "cpdir":
 		// cp -r <p> <to>: two directories with identical contents (they share one tree id once committed)
 		src, dst := r.wtPath(ev["p"].(string)), r.wtPath(ev["to"].(string))
@@ -322,6 +334,13 @@ func copyTree(src, dst string) error {
 		q := filepath.Join(dst, rel)
 		if info.IsDir() {
 			return os.MkdirAll(q, 0o777)
+		}
+		if info.Mode()&os.ModeSymlink != 0 {
+			to, err := os.Readlink(p)
+			if err != nil {
+				return err
+			}
+			return os.Symlink(to, q)
 		}
 		if !info.Mode().IsRegular() {
 			return nil
